@@ -49,6 +49,7 @@ options = st.fixed_dictionaries(
         "grace_form": st.sampled_from(["q", "8q", "16q"]),
         "natural": st.lists(st.booleans(), min_size=5, max_size=5),
         "tie_first": st.booleans(),
+        "tie_over_grace": st.sampled_from([False, False, False, True]),
         "records": st.booleans(),
         "local_comment": st.booleans(),
         "dynam": st.booleans(),
@@ -59,6 +60,9 @@ options = st.fixed_dictionaries(
         "ext": st.sampled_from([".krn", ".krn", ".kern", ".KRN"]),
     }
 )
+
+
+LATER_OPTIONS = {"tie_over_grace": False}
 
 
 def kern_pitch(step, alter, octave, natural):
@@ -84,6 +88,7 @@ def recip_token(sym):
 
 def render(model, opt):
     """Return (kern text, expected)."""
+    opt = dict(LATER_OPTIONS, **opt)  # replay files written before an option existed
     nbars = len(model.bars)
     voices = list(model.voices)
     # ---- columns: top level spines and at most one sub-spine per top level spine ----------------
@@ -114,6 +119,7 @@ def render(model, opt):
                 col.extend(model.vb[sp["sub"]["voice"]][b] or [])
             seq[(k, 1)] = col
     tie_ok = set()
+    over_grace = []
     rendered_ids = set()
     for key, col in seq.items():
         for e in col:
@@ -122,10 +128,12 @@ def render(model, opt):
     tie_next = dict(model.ties)
     for key, col in seq.items():
         for e1, e2 in zip(col, col[1:]):
-            if e1["kind"] == "note" and e2["kind"] == "note" and not e2["graces"]:
+            if e1["kind"] == "note" and e2["kind"] == "note" and (not e2["graces"] or opt["tie_over_grace"]):
                 a, b2 = e1["notes"][0]["id"], e2["notes"][0]["id"]
                 if tie_next.get(a) == b2:
                     tie_ok.add((a, b2))
+                    if e2["graces"]:
+                        over_grace.append((a, b2))
     starts = set(a for a, _ in tie_ok)
     stops = set(b2 for _, b2 in tie_ok)
     dropped_ties = [t for t in model.ties if t not in tie_ok and t[0] in rendered_ids and t[1] in rendered_ids]
@@ -413,6 +421,7 @@ def render(model, opt):
         "has_split": any(sp["sub"] is not None for sp in spines),
         "dropped_ties": len(dropped_ties),
         "kept_ties": len(tie_ok),
+        "ties_over_grace": len(over_grace),
         "final_barline": opt["final_barline"] != "none",
     }
     return text, expected
